@@ -136,11 +136,24 @@ def run_one(ch, env):
     pyr = cfg.build()
 
     twice = ch.draw(4, kind="walk_twice") == 3     # a Pyramid object may be walked again: same result expected
+    # ... and its documented-as-changeable `depth` may be given another value in between
+    import copy as _copy
+    cfg2 = cfg
+    if twice and cfg.kind in ("generic", "toast", "filtered") and not large and ch.draw(2, kind="depth_changed_between_walks") == 1:
+        nd = cfg.depth + (1 if (cfg.depth < 3 and ch.draw(2, kind="depth_up")) else -1)
+        if nd >= 0 and (cfg.apex is None or nd >= cfg.apex.n):
+            cfg2 = _copy.copy(cfg)
+            cfg2.depth = nd
+            res["config"]["second_walk_depth"] = nd
+            res.setdefault("probes", {})["depth_changed_between_walks"] = 1
+    expected2 = cfg2.live_parents() if cfg2 is not cfg else expected
 
     def main():
         pyr.walk(rec, parallel=common.parg(workers), **common.pkw())
         if twice:
             sim.event("second-walk", 0, 0, 0)
+            if cfg2 is not cfg:
+                pyr.depth = cfg2.depth
             pyr.walk(rec, parallel=common.parg(workers), **common.pkw())
 
     main_task = sim.run(main)
@@ -166,9 +179,9 @@ def run_one(ch, env):
         res["harness_error"] = "expected two walks, saw %d" % len(hists)
         return res
     for k, hist in enumerate(hists):
-        v = check_history(cfg, hist, expected)
+        v = check_history(cfg2 if k else cfg, hist, expected2 if k else expected)
         if v is not None:
-            res["violation"] = viol(PROP, v[0], "walk(parallel=%d)%s: %s" % (workers, " [second walk of the same Pyramid object]" if k else "", v[1]))
+            res["violation"] = viol(PROP, v[0], "walk(parallel=%d)%s: %s" % (workers, (" [second walk of the same Pyramid object%s]" % (", depth set to %d" % cfg2.depth if cfg2 is not cfg else "")) if k else "", v[1]))
             return res
     # same multiset as serial is implied (both equal the reference); worker exceptions are not expected
     if sim.stderr:
